@@ -264,6 +264,19 @@ def run(prop, res, tier, seed):
     for rq, a, b in zip(scripts, io, mo):
         if a != b:
             res.disagreements.append((rq[:300], a[:300], b[:300]))
+    # 2a. the recorded finding's own input, replayed on every run
+    fixed = ("pub fn apply(v: a, f: fn(a) -> b) -> b {\n  f(v)\n}\n\npub type Box(a) {\n  Box(value: a)\n}\n\n"
+             "pub fn late() {\n  apply(Box(1.5), fn(b) { b.value })\n}\n")
+    lines = ["ws-begin", f"file\t/w/p/src/m1.gleam\t{hexs(fixed)}", "file\t/w/p/gleam.toml\t" + hexs('name = "p"\n'), "root\t/w/p\t0,1", "pkg\tp\t1\t1\t-", "ws-end",
+             f"hover\t0\t{fixed.index('late')}"]
+    out, rc = common.run_lines(common.HARNESS_BIN, lines)
+    res.cov["evaluations"] += 1
+    if len(out) == len(lines) and " " in out[-1]:
+        shown = strip_md(unhexs(out[-1].split(" ", 1)[1]))
+        if shown is not None and re.sub(r"\s+", "", shown) != "fn()->Float":
+            res.add_violation("C09/wrong-type/access-on-late-bound-parameter",
+                              f"`apply(Box(1.5), fn(b) {{ b.value }})`: the function's type is shown as `{shown}`, Gleam's is `fn() -> Float`",
+                              {"texts": {"m1": fixed}, "binder": "late", "shown": shown})
     # 2. programs
     stats, vstats = run_programs(res, rng, 40 if tier == "quick" else 1200, tier)
     if vstats["expected_rejected"] > 0.5 * max(1, vstats["expected_ok"] + vstats["expected_rejected"]):
